@@ -17,10 +17,13 @@ Record plugin_obs := {
   po_fd3_socket : bool;
   po_config : option string;     (* configuration string received in Configure; None = never configured *)
   po_after_start : N;            (* process state when Start has returned: 0 gone, 1 zombie, 2 running *)
-  po_after_stop : N              (* … when Stop has returned *)
+  po_after_stop : N              (* … when Stop has returned (0 = no such child of the runtime any more) *)
 }.
 
-(* one event sent through the adaptation; eo_order = file names of the plugins in the order they ran their handler *)
+(* one event sent through the adaptation; eo_order = file names of the plugins in the order they ran their handler;
+   eo_after_death = sent after the "later" of the ODieLater / OHangLater plugins.  A case of the "silent stop"
+   kind has no such event: the plugins lose their connection, the runtime notices, and Stop is called with no
+   event or request in between *)
 Record event_obs := { eo_after_death : bool; eo_err : bool; eo_order : list string }.
 
 Record launch_case := {
@@ -39,6 +42,21 @@ Definition outcome_of (c : launch_case) (p : discovered) : outcome := outcome_by
 Definition state_code (s : option pstate) : N :=
   match s with Some PGone => 0 | Some PZombie => 1 | Some PRunning => 2 | None => 0 end%N.
 
+(* what happened between Start and the process table being read, as actions of Model/Launch.v: the events sent
+   before the deaths, the deaths (noticed by the runtime), the events after them (possibly none), Stop *)
+Definition lost_actions (c : launch_case) (ds : list discovered) : list action :=
+  flat_map (fun p => match outcome_of c p with
+                     | ODieLater => [AConnLost (d_name p) true; ANotice (d_name p)]
+                     | OHangLater => [AConnLost (d_name p) false; ANotice (d_name p)]
+                     | _ => []
+                     end) ds.
+Definition case_history (c : launch_case) (ds : list discovered) : list action :=
+  (map (fun _ => AEvent) (filter (fun e => negb (eo_after_death e)) (lc_events c)) ++
+   lost_actions c ds ++
+   map (fun _ => AEvent) (filter eo_after_death (lc_events c)) ++ [AStop])%list.
+Definition world_after_stop (c : launch_case) (ds : list discovered) : list rplugin :=
+  run (case_history c ds) (world_after_start (outcome_of c) ds).
+
 Definition strs_eqb := list_eqb String.eqb.
 Definition is_nil {A} (l : list A) : bool := match l with [] => true | _ => false end.
 Fixpoint all2 {A B} (f : A -> B -> bool) (a : list A) (b : list B) : bool :=
@@ -50,7 +68,7 @@ Fixpoint all2 {A B} (f : A -> B -> bool) (a : list A) (b : list B) : bool :=
 
 (* ------------------------------------------------------------------ correspondence *)
 
-Definition obs_matches (c : launch_case) (p : discovered) (po : plugin_obs) : bool :=
+Definition obs_matches (c : launch_case) (w : list rplugin) (p : discovered) (po : plugin_obs) : bool :=
   let o := outcome_of c p in
   let env := child_env (d_idx p) (d_base p) in
   (String.eqb (po_file po) (d_name p) &&
@@ -60,7 +78,7 @@ Definition obs_matches (c : launch_case) (p : discovered) (po : plugin_obs) : bo
    list_eqb N.eqb (po_fds po) child_fds && po_fd3_socket po &&
    opt_eqb String.eqb (po_config po) (if configured o then Some (d_cfg p) else None) &&
    N.eqb (po_after_start po) (state_code (state_after_start o)) &&
-   N.eqb (po_after_stop po) (state_code (state_after_stop o)))%bool.
+   N.eqb (po_after_stop po) (state_code (Some (proc_of w (d_name p)))))%bool.
 
 (* the model's list up to the order of plugins with equal indices (sort.Slice is not stable) *)
 Definition order_matches (observed : list string) (model : list discovered) : bool :=
@@ -78,7 +96,7 @@ Definition corr_launch (c : launch_case) : bool :=
   | Some ds =>
       let act := start_plugins (outcome_of c) ds in
       (lc_start_ok c &&
-       all2 (obs_matches c) (filter (fun p => launches (outcome_of c p)) ds) (lc_obs c) &&
+       all2 (obs_matches c (world_after_stop c ds)) (filter (fun p => launches (outcome_of c p)) ds) (lc_obs c) &&
        forallb (event_matches c act) (lc_events c))%bool
   end.
 
@@ -98,7 +116,7 @@ Definition obs_holds (c : launch_case) (po : plugin_obs) : bool :=
         else opt_eqb String.eqb (po_config po) None) &&                    (* its drop-in configuration *)
        (if active o then N.eqb (po_after_start po) 2                        (* the others are unaffected *)
         else negb (N.eqb (po_after_start po) 2)) &&                         (* killed when dropped *)
-       negb (N.eqb (po_after_stop po) 2))%bool                              (* killed when NRI stops *)
+       N.eqb (po_after_stop po) 0)%bool                                     (* killed (and reaped) when NRI stops *)
   end.
 
 Definition event_holds (c : launch_case) (cands : list string) (e : event_obs) : bool :=
